@@ -204,9 +204,11 @@ def match_finding(failure, findings):
     key of its matcher equals the failure's field."""
     for f in findings:
         if f.get("status") != "open": continue
-        m = f["matcher"]
-        if all(str(failure.get(k)) == str(v) for k, v in m.items()):
-            return f
+        # "matcher": one dict; "matchers": any of several; a list value = any of its members
+        for m in (f.get("matchers") or [f["matcher"]]):
+            if all((str(failure.get(k)) in [str(x) for x in v]) if isinstance(v, list) else (str(failure.get(k)) == str(v))
+                   for k, v in m.items()):
+                return f
     return None
 
 
